@@ -32,6 +32,7 @@ META = {
                "two live frames of independent symbolic widths <= 6 (thorough 16): the same kind of write on "
                "each, views, concatenation - nothing learnt from one frame may be applied to the other",
                "`f += g` with another reference to f alive (the object keeps its length)",
+               "equality across Frame / ForwardFrame / BackwardFrame / BackwardFrameError of eight bits",
                "byte-sequence constructor: up to 9 bytes", "pack_len(l): l in 0..10"],
     "stubs": ["builtins isinstance/int/bytes shims (accept SymInt)",
               "int.to_bytes / int.from_bytes / int.bit_length modelled by symx"],
